@@ -28,6 +28,12 @@ IDENT = {
     ("__rmul__", "other==0"): ({"0"}, "0 * x = 0"),
     ("__truediv__", "other==1"): ({"S"}, "x / 1 = x"),
     ("__rtruediv__", "other==0"): ({"0"}, "0 / x = 0 wherever it is defined"),
+    ("__rfloordiv__", "other==0"): ({"0"}, "0 // x = 0 wherever it is defined"),
+    ("__rmod__", "other==0"): ({"0"}, "0 % x = 0 wherever it is defined"),
+    ("__rlshift__", "other==0"): ({"0"}, "0 << x = 0"),
+    ("__rrshift__", "other==0"): ({"0"}, "0 >> x = 0"),
+    ("__lshift__", "other==0"): ({"S"}, "x << 0 = x"),
+    ("__rshift__", "other==0"): ({"S"}, "x >> 0 = x"),
     ("__floordiv__", "other==1"): ({"S"}, "x // 1 = x  [Z]"),
     ("__rfloordiv__", "self==1"): ({"O"}, "y // 1 = y  [Z]"),
     ("__mod__", "other==1"): ({"0"}, "x % 1 = 0  [Z]"),
@@ -476,6 +482,22 @@ def _overrides(ctx, model):
                           splice_self=(n.name == node), lenient=True)
 
 
+def _is_typeerror(model, module, name, _depth=0):
+    """TypeError, or a class of the package that derives from it"""
+    if name == "TypeError":
+        return True
+    if _depth > 6 or not isinstance(name, str):
+        return False
+    try:
+        ci = model.resolve_in_module(module, ast.parse(name, mode="eval").body)
+    except SyntaxError:
+        return False
+    if ci is None or not hasattr(ci, "node"):
+        return False
+    return any(_is_typeerror(model, ci.module, ast.unparse(b), _depth + 1)
+               for b in ci.node.bases)
+
+
 def _ordering(ctx, model, E):
     for name in ("__lt__", "__le__", "__gt__", "__ge__"):
         mem = E.members.get(name)
@@ -484,7 +506,8 @@ def _ordering(ctx, model, E):
             pss = summarize(mem.node, node_param=False)
             ok = bool(pss) and all(
                 ps.term == "raise" and ps.retval is not None
-                and ps.retval[0] == "call" and ps.retval[1] == "TypeError"
+                and ps.retval[0] == "call" and _is_typeerror(
+                    model, E.module, ps.retval[1])
                 for ps in pss)
         ctx.ob(f"P/Expression.{name}/raises-typeerror", ok, E.loc(),
                "ordering comparison raises TypeError" if ok else
